@@ -7,6 +7,7 @@ RULES = {"C01.R1", "C01.R2", "C01.R3", "C01.R4", "C01.R5", "C01.R7", "C01.R8", "
 
 def extra(res, facts, entries, protos):
     _proto.state_rule(res, "C01.R11", facts, entries)
+    _proto.clone_rule(res, "C01.R12", facts)
     _proto.refusal_rules(res, "C01.R6", facts)
 
 
